@@ -375,14 +375,18 @@ package aggregator
 //@   modifies a.Key
 //@
 //@ func NewMocked(fun string, matcher matcher.Matcher, outFmt string, cache bool, interval uint, wait uint, dropRaw bool, out chan []byte, inBuf int, now func() time.Time, tick <-chan time.Time) (a *Aggregator, err error)
-//@   property C14
+//@   property C14,C20
 //@   fresh
 //@   requires inBuf >= 0
 //@   modifies spawned("(*github.com/grafana/carbon-relay-ng/aggregator.Aggregator).run")
 //@   ensures[usable; C14] err == nil ==> a != nil && a.Interval > 0 && a.Matcher.Regex != "" && a.in != nil && a.aggregations != nil && a.Interval == interval && a.Wait == wait && a.DropRaw == dropRaw
+//@   ensures[as_configured; C20] err == nil ==> a.Fun == fun && a.OutFmt == outFmt && a.Cache == cache && a.Interval == interval && a.Wait == wait && a.DropRaw == dropRaw && a.out == out
+//@        && a.Matcher.Prefix == matcher.Prefix && a.Matcher.NotPrefix == matcher.NotPrefix && a.Matcher.Sub == matcher.Sub && a.Matcher.NotSub == matcher.NotSub && a.Matcher.Regex == matcher.Regex && a.Matcher.NotRegex == matcher.NotRegex
 //@
 //@ func New(fun string, matcher matcher.Matcher, outFmt string, cache bool, interval uint, wait uint, dropRaw bool, out chan []byte) (*Aggregator, error)
-//@   property C14
+//@   property C14,C20
 //@   fresh
 //@   modifies spawned("(*github.com/grafana/carbon-relay-ng/aggregator.Aggregator).run")
 //@   ensures[usable; C14] result1 == nil ==> result0 != nil && result0.Interval > 0 && result0.Matcher.Regex != ""
+//@   ensures[as_configured; C20] result1 == nil ==> result0.Fun == fun && result0.OutFmt == outFmt && result0.Cache == cache && result0.Interval == interval && result0.Wait == wait && result0.DropRaw == dropRaw && result0.out == out
+//@        && result0.Matcher.Prefix == matcher.Prefix && result0.Matcher.NotPrefix == matcher.NotPrefix && result0.Matcher.Sub == matcher.Sub && result0.Matcher.NotSub == matcher.NotSub && result0.Matcher.Regex == matcher.Regex && result0.Matcher.NotRegex == matcher.NotRegex
